@@ -9,14 +9,14 @@ RULE = ("correspondence: worlds with up to 6 overlapping area features / plumes,
         "composition models the answer must equal the fold of the declared operations over the covering features starting from the background, computed independently "
         "in double arithmetic. non-trivial = at least one feature covers the point.")
 TRUSTED_BASE = []
-ASSUMPTIONS = ["line features (slab, fault) are not yet inside the Lean model: for them only the implementation-level oracle parts (a)-(c) apply once they are generated"]
+ASSUMPTIONS = ["slab/fault models mass conserving, plate model, water content and random grains are not yet inside the Lean model"]
 
 GLOBAL_KEYS = ["version", "coordinate system", "gravity model", "potential mantle temperature", "surface temperature", "force surface temperature",
                "thermal expansion coefficient", "specific heat", "thermal diffusivity", "cross section", "random number seed"]
 
 
 def correspondence(seed, tier):
-    rs = [corr.run_corr(seed * 1000 + 20 + k, "C02_%d" % k, budget(tier, 20, 300), 25, {"with_random": False, "max_features": 6}) for k in range(budget(tier, 1, 3))]
+    rs = [corr.run_corr(seed * 1000 + 20 + k, "C02_%d" % k, budget(tier, 20, 300), 25, {"with_random": False, "max_features": 6, "with_lines": True}) for k in range(budget(tier, 1, 3))]
     return summarize_corr(rs)
 
 
@@ -55,6 +55,30 @@ def uniform_stack_world(rng, spherical):
         f["temperature models"] = tm
         f["composition models"] = cm
         w["features"].append(f)
+    # slabs / faults over the same region: identical sections, models at feature level, default distance ranges
+    for i in range(rng.randint(0, 2)):
+        kind = rng.choice(["subducting plate", "fault"])
+        f, _, _ = g.line(kind, c, rad)
+        for k in ("temperature models", "composition models", "velocity models", "grains models", "sections"):
+            f.pop(k, None)
+        for sg in f["segments"]:
+            for k in ("temperature models", "composition models", "velocity models", "grains models", "top truncation"):
+                sg.pop(k, None)
+        f["name"] = "l%d" % i
+        f["min depth"] = 0
+        f["max depth"] = 1e7
+        tm = [{"model": "uniform", "temperature": rng.choice([100, 250.5, 1000, 3]), "operation": rng.choice(["replace", "add", "subtract"]), "min depth": -1e300, "max depth": 1e300}
+              for _ in range(rng.randint(0, 2))]
+        cm = []
+        for _ in range(rng.randint(0, 2)):
+            comps = rng.sample(range(4), rng.randint(1, 2))
+            cm.append({"model": "uniform", "compositions": comps, "fractions": [rng.choice([1, 0.5, 0.25, 0.125]) for _ in comps],
+                       "operation": rng.choice(["replace", "add", "subtract", "replace defined only"]), "min depth": -1e300, "max depth": 1e300})
+        # the stack oracle reads "min depth"/"max depth" of a model as its range; for line features the real keys are distances (left at their defaults)
+        f["temperature models"] = [{k: v for k, v in m.items() if k not in ("min depth", "max depth")} for m in tm]
+        f["composition models"] = [{k: v for k, v in m.items() if k not in ("min depth", "max depth")} for m in cm]
+        f["_oracle_models"] = (tm, cm)
+        w["features"].insert(rng.randint(0, len(w["features"])), f)
     g.regions = [(c, rad)]
     return w, g
 
@@ -64,6 +88,8 @@ def expected_stack(w, covering, depth, background_T, ncomp=4):
     T = background_T
     C = [0.0] * ncomp
     for f in covering:
+        if "_oracle_models" in f:
+            f = {"temperature models": f["_oracle_models"][0], "composition models": f["_oracle_models"][1]}
         for m in f.get("temperature models", []):
             if m["min depth"] <= depth <= m["max depth"]:
                 v = float(m["temperature"])
@@ -85,7 +111,7 @@ def oracle(seed, tier):
     viol, cases, nontriv = [], 0, 0
     samples = []
     # ---- (a)(b)(c): deletion / permutation of non-covering features, tag of the last covering one
-    worlds = gen_worlds(rng, wdir, "o", budget(tier, 10, 120), {"with_random": False, "max_features": 6})
+    worlds = gen_worlds(rng, wdir, "o", budget(tier, 10, 120), {"with_random": False, "max_features": 6, "with_lines": True})
     for wi, (path, w, g) in enumerate(worlds):
         feats = w["features"]
         if not feats:
@@ -168,16 +194,20 @@ def oracle(seed, tier):
         sph = rng.random() < 0.3
         w, g = uniform_stack_world(rng, sph)
         path = os.path.join(wdir, "s_%d.wb" % si)
+        oracle_models = [f.pop("_oracle_models", None) for f in w["features"]]
         json.dump(w, open(path, "w"))
         qs = g.queries(w, budget(tier, 8, 12))
         feats = w["features"]
+        for f, om in zip(feats, oracle_models):
+            if om is not None:
+                f["_oracle_models"] = om
         lines = ["world W %s -" % path]
         bgp = os.path.join(wdir, "s_%d_bg.wb" % si)
         json.dump(with_features(w, []), open(bgp, "w"))
         lines.append("world B %s -" % bgp)
         for fi, f in enumerate(feats):
             p1 = os.path.join(wdir, "s_%d_f%d.wb" % (si, fi))
-            json.dump(with_features(w, [f]), open(p1, "w"))
+            json.dump(with_features(w, [{k: v for k, v in f.items() if k != "_oracle_models"}]), open(p1, "w"))
             lines.append("world F%d %s -" % (fi, p1))
         props = [(1, 0, 0), (2, 0, 0), (2, 1, 0), (2, 2, 0), (2, 3, 0)]
         base = len(lines)
@@ -204,10 +234,10 @@ def oracle(seed, tier):
                 nontriv += 1
             T, C = expected_stack(w, covering, d, bg[1][0])
             if bits([T] + C) != bits(full[1]):
-                viol.append({"what": "stack of operations: expected T=%r C=%r, library returned %r" % (T, C, full[1]), "world": path, "world_json": w,
+                viol.append({"what": "stack of operations: expected T=%r C=%r, library returned %r" % (T, C, full[1]), "world": path, "world_json": json.loads(open(path).read()),
                              "point": p, "depth": d, "covering": cov, "cmd": q3("W", p, d, props)})
         if si == 0:
-            samples.append({"stack_world": w, "first_query": qs[0] if qs else None})
+            samples.append({"stack_world": json.loads(open(path).read()), "first_query": qs[0] if qs else None})
     return {"violations": viol[:20], "summary": {"cases": cases, "violations": len(viol), "nontrivial": nontriv}, "samples": samples}
 
 
